@@ -407,6 +407,7 @@ func (x *Unit) verifyOnce() (res *UnitResult) {
 			x.clausePos[r] = x.FU.Body.Lbrace + 1
 			x.assume(st, x.specBool(st, r, nil))
 		}
+		x.assumeAxioms(st)
 		for _, l := range c.Lets {
 			e, err := ParseSpec(l.Init)
 			if err != nil {
@@ -514,4 +515,86 @@ func (res *UnitResult) Query(o *Obligation, seed int) string {
 	fmt.Fprintf(&b, "(assert (not %s))\n", o.Cond.S)
 	b.WriteString("(check-sat)\n")
 	return b.String()
+}
+
+// assumeAxioms assumes the contract-level axioms (trusted; listed in the evidence) in the entry state.
+// Axioms may only read immutable heap components, so assuming them once is enough.
+func (x *Unit) assumeAxioms(st *State) {
+	for _, cs := range x.P.Contracts {
+		for _, a := range cs.Axioms {
+			func() {
+				defer func() {
+					if r := recover(); r != nil {
+						if _, ok := r.(unsupportedErr); ok {
+							return
+						}
+						panic(r)
+					}
+				}()
+				env := &specEnv{x: x, cur: st, old: st, names: map[string]Term{}, noLocals: true, typePkg: cs.PkgPath}
+				x.assume(st, env.boolOf(a.Expr))
+				x.assumedAt = append(x.assumedAt, "axiom "+a.Label+": "+a.Src)
+			}()
+		}
+	}
+}
+
+// VerifyLemma checks a pure lemma: fresh variables, assume requires (+axioms), prove ensures.
+func VerifyLemma(p *Program, pkgPath string, lm *LemmaDecl) *UnitResult {
+	pk := p.Pkgs[pkgPath]
+	// any function of the package serves as the syntactic context for type resolution
+	var ctx *FuncUnit
+	var names []string
+	for k, u := range p.Units {
+		if u.Pkg == pk && u.Lit == nil {
+			names = append(names, k)
+		}
+	}
+	sort.Strings(names)
+	if len(names) == 0 {
+		return &UnitResult{Unit: "lemma." + lm.Name, Pkg: pk.Name, Err: "no context function"}
+	}
+	ctx = p.Units[names[0]]
+	fu := &FuncUnit{Name: "lemma." + lm.Name, Pkg: pk, Decl: ctx.Decl, Body: ctx.Body, Type: ctx.Type, Sig: ctx.Sig}
+	x := NewUnit(p, fu)
+	x.pass = 2
+	res := &UnitResult{Unit: fu.Name, Pkg: pk.Name, U: x.U}
+	defer func() {
+		if r := recover(); r != nil {
+			if ue, ok := r.(unsupportedErr); ok {
+				res.Err = ue.msg
+				return
+			}
+			panic(r)
+		}
+	}()
+	st := &State{pc: True, vars: map[types.Object]Term{}, heap: map[string]Term{}}
+	x.entry = st
+	x.regComp("alloc", SInt)
+	names2 := map[string]Term{}
+	env0 := &specEnv{x: x, cur: st, old: st, names: names2, noLocals: true, typePkg: pkgPath}
+	for _, v := range lm.Vars {
+		so, gt := env0.resolveSort(v.Type)
+		c := x.U.Const(q("lv:"+v.Name), so)
+		c.GoT = gt
+		x.typeInv(c)
+		names2[v.Name] = c
+	}
+	x.assumeAxioms(st)
+	for _, r := range lm.Requires {
+		x.assume(st, env0.boolOf(r.Expr))
+	}
+	for _, en := range lm.Ensures {
+		tags := en.Tags
+		if len(tags) == 0 {
+			tags = lm.Tags
+		}
+		x.oblige(st, "lemma", en.Label, tags, env0.boolOf(en.Expr), en.Src, nil)
+	}
+	cov := &Obligation{Name: pk.Name + "." + fu.Name + "#cover[hypotheses_satisfiable]", Kind: "cover", Label: "hypotheses_satisfiable", PC: True, Cond: False, NAssume: len(x.assumes), Src: "the lemma's hypotheses are not contradictory", Unit: fu.Name, IsCover: true}
+	x.obls = append(x.obls, cov)
+	res.Obls = x.obls
+	res.Assumes = x.assumes
+	res.AssumedAt = x.assumedAt
+	return res
 }
